@@ -5,7 +5,7 @@ from __future__ import annotations
 import random
 
 INT, FLT, BOOL, STR = "Int64", "Float64", "Bool", "String"
-STR_ALPHA = ["a", "b", "ab", "ba", "x", "xy", "", "a b", " a", "bb", "aa", "b%", "a_b", "é", "zz"]
+STR_ALPHA = ["a", "b", "ab", "ba", "x", "xy", "", "a b", " a", "bb", "aa", "b%", "a_b", "b-", "zz"]
 
 
 def mentions_col(e) -> bool:
@@ -348,7 +348,7 @@ class Gen:
                 ctx["arrange"] = dedup_keys([self.order(st, r.choice(cands)) for _ in range(r.randint(1, 2))])
                 return ["fn", k, [], ctx]
             tot = self.total_order(st)
-            if tot is None:
+            if not tot:
                 return None
             ctx["arrange"] = tot
             if k == "row_number":
@@ -544,8 +544,12 @@ class Gen:
                 if r.random() < 0.25 and ty in (INT, FLT):
                     e = ["fn", r.choice(["add", "mul"]), [e, self.agg_expr(st, ty, False) if r.random() < 0.5 else self.lit(ty)]]
                 name = self.fresh_name(st, allow_overwrite=r.random() < 0.15)
-                if name in seen or name in st.group:
+                if st.group and r.random() < self.p.get("overwrite_group", 0.0):
+                    name = r.choice(st.group)
+                if name in seen:
                     continue
+                if name in st.group and r.random() > self.p.get("overwrite_group", 0.0):
+                    continue        # finding F07 (SQL): allowed only in profiles that ask for it
                 seen.add(name)
                 defs.append((name, ty, e))
             if not defs:
